@@ -29,6 +29,7 @@ func checkC10(c *Ctx, r *Report) {
 	c10CursorDiscipline(c, r, "C10.d")
 	c10RootDispatch(c, r, "C10.d")
 	c10UnionBraceLayout(c, r, "C10.d")
+	c10CharLiteralExtent(c, r, "C10.d")
 	c10TokenStartDiscipline(c, r, "C10.d")
 	c10SectionExtents(c, r)
 	c10ActionExtent(c, r)
